@@ -47,6 +47,16 @@ def gen_cases(rng, tier: str) -> list[dict]:
         pts = common.points_for(rng, e, 3 if tier == "quick" else 6)
         cases.append({"origin": origin, "e": wire.expr(e2),
                       "points": [wire.point({k: float(v) for k, v in p.items()} if floaty else p) for p in pts]})
+    # reducers the model does not know (a rule was added or renamed): aim the generator at their class
+    focus = sorted({m.split("unknown reducer ")[1].split(".")[0] for m in instrument.missing_rules() if "unknown reducer " in m})
+    focus = [k for k in focus if k in gen.ALL]
+    if focus:
+        for origin, e in gen.rich_shapes(rng, 2500, classes=focus):
+            e2, _ = gen.safe_numbers(e, {})
+            floaty = e2 is not e
+            pts = common.points_for(rng, e, 2)
+            cases.append({"origin": "focus:" + origin, "e": wire.expr(e2),
+                          "points": [wire.point({k: float(v) for k, v in p.items()} if floaty else p) for p in pts]})
     if tier == "thorough" or True:
         for e in big_inputs(rng)[: (1 if tier == "quick" else 3)]:
             cases.append({"origin": "budget", "e": wire.expr(e), "points": [wire.point({"x": 2, "y": 3}), wire.point({"x": -1.5, "y": 0.5})]})
